@@ -387,8 +387,49 @@ def gen_order_set(rng, k):
 # =====================================================================================================
 # running a script on the implementation
 # =====================================================================================================
+_CLASS_STATE = None
+
+
+def _mutable_state():
+    """(owner, name, value) of every dict / list / set held at class or module level by the plotting package"""
+    import qexpy.plotting.plotting as P
+    import qexpy.plotting.plotobjects as PO
+    out = []
+    for mod in (P, PO):
+        owners = [mod] + [c for c in vars(mod).values() if isinstance(c, type) and c.__module__ == mod.__name__]
+        for owner in owners:
+            for name, val in list(vars(owner).items()):
+                if isinstance(val, (dict, list, set)) and not name.startswith("__"):
+                    out.append((owner, name, val))
+    return out
+
+
+def restore_class_state():
+    """every case starts from the state of a freshly started interpreter: mutable class-level / module-level state of the
+    plotting package is put back (in place) to what it was right after import, so that a recorded failing input does not
+    depend on what the same process ran before it"""
+    global _CLASS_STATE
+    import copy
+    if _CLASS_STATE is None:
+        _CLASS_STATE = [(o, n, copy.deepcopy(v)) for o, n, v in _mutable_state()]
+        return
+    for owner, name, fresh in _CLASS_STATE:
+        cur = vars(owner).get(name)
+        if isinstance(cur, dict) and isinstance(fresh, dict):
+            cur.clear()
+            cur.update(copy.deepcopy(fresh))
+        elif isinstance(cur, list) and isinstance(fresh, list):
+            cur[:] = copy.deepcopy(fresh)
+        elif isinstance(cur, set) and isinstance(fresh, set):
+            cur.clear()
+            cur.update(fresh)
+        else:
+            setattr(owner, name, copy.deepcopy(fresh))
+
+
 def reset_impl():
     q = _q()
+    restore_class_state()
     import qexpy.settings.settings as S
     S.Settings._Settings__instance = None
     q.reset_default_configuration()
